@@ -495,7 +495,25 @@ pub fn predict_vs_ref(net: &Net, params: &[P<f32>], x: &[f32], tol: f64) -> Resu
 
 /// `limit`: a case is skipped (counted as overflow) when any intermediate of the exact computation exceeds it. The default
 /// 1e30 leaves room for the partial sums of dot products; identity-like networks without partial sums can go to f32::MAX.
+/// number of layer applications in the unrolled network (feedback repetitions and loop iterations written out)
+pub fn unrolled_depth(net: &Net) -> usize {
+    let mut d = 0usize;
+    for l in &net.layers {
+        d += match l {
+            L::Fb { layers, loops, .. } => layers.len() * loops + loops,
+            _ => 1,
+        };
+    }
+    for (o, i, k, _) in &net.loopbacks {
+        d += (o - i + 1) * k + k;
+    }
+    d
+}
+
 pub fn predict_vs_ref_limit(net: &Net, params: &[P<f32>], x: &[f32], tol: f64, limit: f64) -> Result<PredictOk, Mismatch> {
+    // single-precision rounding accumulates with the length of the chain: the relative tolerance is the given one for
+    // chains of up to 4 layer applications and grows linearly beyond (a 17-application chain gets 4.25 x)
+    let tol = tol * (unrolled_depth(net) as f64 / 4.0).max(1.0);
     let shapes = ref_shapes(net).expect("predict_vs_ref: reference must accept the case");
     let lib = build_with(net, &shapes, params).map_err(Mismatch::Rejected)?;
     let xt = libnet::tensor(net.input, x);
@@ -532,6 +550,13 @@ pub fn predict_vs_ref_limit(net: &Net, params: &[P<f32>], x: &[f32], tol: f64, l
             f64::INFINITY
         }
     };
+    // rounding of the INTERMEDIATES: every operation rounds at the scale of its own result, so an output that is the
+    // difference of intermediates of size M carries an absolute error of a few ulp(M) whatever the data perturbation says
+    // (a structurally cancelling last layer hides that from the perturbation estimate above)
+    let extra = extra + 16.0 * f32::EPSILON as f64 * floor;
+    if std::env::var("NV_DEBUG").is_ok() {
+        eprintln!("debug predict_vs_ref: floor(trace max) {:e} extra {:e} want {:?} lib {:?}", floor, extra, &want[..want.len().min(4)], &v[..v.len().min(4)]);
+    }
     match compare_out_abs(&v, want, tol, extra, floor) {
         Ok(exact) => Ok(PredictOk { exact, nontrivial, lib_out: v, overflow: false }),
         Err(e) => {
